@@ -132,7 +132,7 @@ pub fn emit(em: &mut Emitter, uid: u16, w: u16, h: u16, lay: u32, name: &str, op
 fn session_params(r: &mut Rng) -> (u16, u16, u16, u32, String) {
     let uid = if r.chance(1, 3) { *r.pick(&[1001u16, 1002, 1004, 1005, 65535, 2000]) } else { 1001 + r.below(64535) as u16 };
     let uid = if uid == 1003 { 1004 } else { uid };
-    (uid, *r.pick(&[800u16, 1024, 1, 65535, 640]), *r.pick(&[600u16, 768, 1, 65535, 480]), *r.pick(&[0x409u32, 0x40c]), r.pick(&["rdp-rs", "x", "", "a-longer-client-name"]).to_string())
+    (uid, *r.pick(&[800u16, 1024, 1, 65535, 640]), *r.pick(&[600u16, 768, 1, 65535, 480]), *r.pick(&[0x409u32, 0x40c]), r.pick(&["rdp-rs", "x", "", "a-longer-client-name", "aaaaaaaaaaaaaa\u{e9}", "名前名前名前名前名前", "😀😀😀😀x", "0123456789abcdef"]).to_string())
 }
 
 /// C12: every history of length <= L over the 11-letter alphabet with an input attempt
@@ -162,6 +162,20 @@ pub fn generate_c12(thorough: bool, seed: u64, part: (usize, usize), em: &mut Em
             if ops.is_empty() { ops.push(g.input()); hist.push("I".into()); }
             emit(em, 1004, 800, 600, 0x409, "rdp-rs", &ops, Some(&hist));
         }
+    }
+    if part.0 == 0 {
+        // demand-active PDUs of 100..300 and > 255 bytes (the MCS length changes form at 128 and 256),
+        // font maps whose mapFlags are not the usual 0x0003
+        for extra in (0usize..220).step_by(7).chain([1000usize, 5000].iter().cloned()) { for mf in &[3u16, 0, 1, 2] {
+            let sid = 0x000103eau32;
+            let mut caps = vec![refsrv::cap(1, &[1, 0, 3, 0, 0, 2, 0, 0, 0, 0, 0x1d, 4, 0, 0, 0, 0, 0, 0, 1, 1])];
+            caps.push(refsrv::cap(0x1e, &vec![0u8; extra]));
+            let fm = refsrv::share_data(sid, 0x28, &refsrv::cat(&[&refsrv::le16(0), &refsrv::le16(0), &refsrv::le16(*mf), &refsrv::le16(4)]));
+            let ops: Vec<String> = vec![format!("R{}", hex(&refsrv::demand_active(sid, b"RDP\0", &caps))), format!("R{}", hex(&refsrv::synchronize(sid, 1002))), format!("R{}", hex(&refsrv::control(sid, 4, 0, 0))),
+                format!("R{}", hex(&refsrv::control(sid, 2, 0x3ec, 0x3ea))), format!("R{}", hex(&fm)), "P1:2:0:0".into(), format!("R{}", hex(&refsrv::deactivate_all(sid, b"RDP\0"))), "K30:1".into()];
+            let hist: Vec<String> = ["DA", "SY", "CO", "GR", "FM", "I", "DE", "I"].iter().map(|x| x.to_string()).collect();
+            emit(em, 1004, 800, 600, 0x409, "rdp-rs", &ops, Some(&hist));
+        } }
     }
     let n = if thorough { 4000 } else { 400 };
     for _ in 0..n {
@@ -248,6 +262,14 @@ pub fn generate_c10(thorough: bool, seed: u64, _part: (usize, usize), em: &mut E
         }
         emit(em, 1004, 800, 600, 0x409, "rdp-rs", &ops, Some(&hist0));
     }
+    // more than 128 (and more than 255) rectangles in one update, and that many updates in one PDU
+    for &(nrect, nupd) in &[(129usize, 1usize), (200, 1), (300, 1), (1, 129), (1, 200), (3, 130)] {
+        let mut g = Gen { r: &mut r, share: 0x000103ea };
+        let mut ops = vec![]; let mut hist0 = vec![]; activate(&mut g, &mut ops, &mut hist0);
+        let mut payload = vec![];
+        for _ in 0..nupd { let rects: Vec<Rect> = (0..nrect).map(|i| Rect { l: i as u16, t: 0, r: i as u16, b: 0, w: 1, h: 1, bpp: 32, flags: 0, data: vec![i as u8; 4] }).collect(); payload.extend(refsrv::fp_bitmap_update(&rects)); }
+        if payload.len() + 3 <= 0x7fff { ops.push(format!("F0:{}", hex(&payload))); hist0.push("FP".into()); emit(em, 1004, 800, 600, 0x409, "rdp-rs", &ops, Some(&hist0)); }
+    }
     // every update code carrying the body of a well-formed bitmap update (only code 1 may yield
     // rectangles), and pointer updates whose leading field looks like UPDATETYPE_BITMAP
     for code in 0..16u8 {
@@ -285,7 +307,8 @@ pub fn generate_c10(thorough: bool, seed: u64, _part: (usize, usize), em: &mut E
 pub fn generate_c06(thorough: bool, seed: u64, part: (usize, usize), em: &mut Emitter) {
     let mut r = Rng::new(seed ^ 0xC06);
     em.alloc_limit = 1 << 20;
-    let prefixes: [&[u64]; 6] = [&[], &[0], &[0, 1], &[0, 1, 2], &[0, 1, 2, 3], &[0, 1, 2, 3, 5]];
+    // the states of the activation sequence, and the same states reached a second time after a deactivation
+    let prefixes: [&[u64]; 7] = [&[], &[0], &[0, 1], &[0, 1, 2], &[0, 1, 2, 3], &[0, 1, 2, 3, 5], &[0, 1, 2, 3, 5, 8, 0]];
     let mut idx = 0usize;
     let mut run = |em: &mut Emitter, r: &mut Rng, pre: &[u64], hostile: Vec<String>| {
         let mut g = Gen { r, share: 0x000103ea };
@@ -295,7 +318,8 @@ pub fn generate_c06(thorough: bool, seed: u64, part: (usize, usize), em: &mut Em
         // continuation: lets a diverging state show up
         for l in &[1u64, 2, 3, 5, 9] { ops.push(g.letter(*l).0); }
         ops.push(g.input());
-        emit(em, 1004, 800, 600, 0x409, "rdp-rs", &ops, None);
+        let name = *["rdp-rs", "aaaaaaaaaaaaaa\u{e9}", "名前名前名前名前名前", "", "0123456789abcdefXYZ"].iter().nth((ops.len() + pre.len()) % 5).unwrap();
+        emit(em, 1004, 800, 600, 0x409, name, &ops, None);
     };
     // a. field faults on every valid letter, at every byte offset, in every state
     let fault_vals: &[u8] = if thorough { &[0, 1, 2, 3, 4, 5, 6, 7, 17, 18, 19, 0x7f, 0x80, 0xfe, 0xff] } else { &[0, 3, 5, 17, 0x80, 0xff] };
@@ -307,18 +331,18 @@ pub fn generate_c06(thorough: bool, seed: u64, part: (usize, usize), em: &mut Em
             for v in fault_vals {
                 idx += 1; if idx % part.1 != part.0 { continue; }
                 let mut b = bytes.clone(); b[off] = *v;
-                let pre = prefixes[(idx / 7) % 6];
+                let pre = prefixes[(idx / 7) % 7];
                 run(em, &mut r, pre, vec![format!("{}{}", tag, hex(&b))]);
             }
         }
         for cut in 0..bytes.len().min(80) {
             idx += 1; if idx % part.1 != part.0 { continue; }
-            run(em, &mut r, prefixes[idx % 6], vec![format!("{}{}", tag, hex(&bytes[..cut]))]);
+            run(em, &mut r, prefixes[idx % 7], vec![format!("{}{}", tag, hex(&bytes[..cut]))]);
         }
         for _ in 0..6 {
             idx += 1; if idx % part.1 != part.0 { continue; }
             let mut b = bytes.clone(); let k = r.range(1, 6) as usize; b.extend(r.bytes(k));
-            run(em, &mut r, prefixes[idx % 6], vec![format!("{}{}", tag, hex(&b))]);
+            run(em, &mut r, prefixes[idx % 7], vec![format!("{}{}", tag, hex(&b))]);
         }
     }
     // b. all short strings at each entry (raw, fast-path, MCS level)
@@ -327,13 +351,13 @@ pub fn generate_c06(thorough: bool, seed: u64, part: (usize, usize), em: &mut Em
     for a in (0..=255u8).step_by(if thorough { 1 } else { 9 }) { for b in (0..=255u8).step_by(if thorough { 3 } else { 31 }) { shorts.push(vec![a, b]); } }
     for s in &shorts {
         idx += 1; if idx % part.1 != part.0 { continue; }
-        let pre = prefixes[idx % 6];
+        let pre = prefixes[idx % 7];
         run(em, &mut r, pre, vec![format!("R{}", hex(s)), format!("F0:{}", hex(s)), format!("M{}", hex(s))]);
     }
     // c. length-field attacks at MCS level and random bytes
     let n = if thorough { 30000 } else { 2500 };
     for _ in 0..n {
-        let pre = prefixes[r.below(6) as usize];
+        let pre = prefixes[r.below(7) as usize];
         let k = r.below(40) as usize;
         let mut b = r.bytes(k);
         let op = match r.below(5) {
@@ -384,7 +408,7 @@ pub fn generate_c06(thorough: bool, seed: u64, part: (usize, usize), em: &mut Em
         for hi in &[0u8, 1, 0xff] { for lo in 0..=9u8 { streams.push(vec![3, 0, *hi, lo]); streams.push(vec![3, 0, *hi, lo, 2, 0xf0, 0x80, 0x68]); } }
         for st in &streams {
             idx += 1; if idx % part.1 != part.0 { continue; }
-            run(em, &mut r, prefixes[idx % 6], vec![format!("W1:{}", hex(st))]);
+            run(em, &mut r, prefixes[idx % 7], vec![format!("W1:{}", hex(st))]);
         }
     }
     em.alloc_limit = 0;
